@@ -350,4 +350,18 @@ def createDocs (cls : SubTable) : List (List (List Nat)) → SubTable × List Su
     let rest := createDocs r.1 ds
     (rest.1, r.2 :: rest.2)
 
+
+/-! ### `appendText` is a function of its own arguments
+
+`Node.appendText(text, charsubs)` computes the value of the new text node from the joined text and the
+table it was given — nothing else (no per-document state). -/
+
+/-- the value of the text node one `appendText(text, charsubs)` call creates; `cs = false` is `charsubs=None`/`[]` -/
+def appendTextValue (cs : Bool) (joined : List Nat) : List Nat :=
+  if cs then applySubs charsubs joined else joined
+
+/-- a history of `appendText` calls on nodes of one document: the values created, in call order -/
+def appendTexts (calls : List (Bool × List Nat)) : List (List Nat) :=
+  calls.map fun c => appendTextValue c.1 c.2
+
 end PlasVerif.Model.Digest
